@@ -140,6 +140,27 @@ def check_case(case) -> Result:
             fa2 = np.asarray(again.transform_non_affine(given), float)
             if not _same(fa2, fa):
                 res.bad("C20/transform-inverse-pair", "inverted().inverted() is not the forward transform")
+            # the inverse as matplotlib itself reaches it: composite transforms call transform_non_affine of every
+            # member, and an axis with this scale maps display coordinates back to data through
+            # ax.transData.inverted() (cursor read-out, picking, zoom / pan)
+            back_na = np.asarray(Ti.transform_non_affine(np.asarray(T.transform_non_affine(given))), float)
+            if back_na.shape != a.shape or (rel.size and float(np.max(np.abs(back_na[ok] - a[ok]) / a[ok])) > tol_rt):
+                k = int(np.argmax(np.abs(back_na[ok] - a[ok]) / a[ok])) if back_na.shape == a.shape and rel.size else 0
+                res.bad("C20/transform-inverse-inside-composite", f"inverse.transform_non_affine(transform(a)) = {back_na[ok][k] if back_na.shape == a.shape and rel.size else back_na!r} for a = {a[ok][k] if rel.size else a!r} ({container}): the inverse is not applied when matplotlib composes it with other transforms;")
+            top = float(np.max(a)) if a.size else 0.0
+            if container == "float64" and 1e-100 < top < 1e100:
+                from matplotlib.figure import Figure
+
+                fig = Figure(figsize=(6.4, 4.8))
+                ax = fig.subplots()
+                ax.set_xscale("squareroot")
+                ax.set_xlim(0.0, top)
+                ax.set_ylim(0.0, 1.0)
+                pts = np.column_stack([a, np.full_like(a, 0.5)])
+                disp = ax.transData.transform(pts)
+                data_back = np.asarray(ax.transData.inverted().transform(disp), float)
+                err = float(np.max(np.abs(data_back[:, 0] - a))) if a.size else 0.0
+                res.check("C20/transform-inverse-on-axes", err, 1e-9 * top, f"data -> display -> data on an axis with the square-root scale (x limits 0..{top!r}): x = {a[int(np.argmax(np.abs(data_back[:, 0] - a)))]!r} comes back as {data_back[int(np.argmax(np.abs(data_back[:, 0] - a))), 0]!r};")
             mags = {int(math.floor(math.log10(v))) for v in a if v > 0}
             res.nontrivial = len(mags) >= 2
             return res
